@@ -42,7 +42,7 @@ def _emit(repo, cname, mname, pos, length, value):
     proto = Obj(None, {"get_and_increment_sequence_counter": Native(counter, "counter"),
                        "get": Native(lambda a, k: take(a[0]), "get"),
                        "queue_send": Native(lambda a, k: take(a[0]), "queue_send")}, name="protocol")
-    spa = Obj(None, dict(IDENT), name=cname)
+    spa = Obj(repo.cls(cname), dict(IDENT), name=cname)   # helper methods a refactoring adds resolve through the class
     spa.attrs.update({"sendparms": PARMS, "_protocol": proto, "is_connected": True, "_is_connected": True, "is_responding_to_pings": True,
                       "get_and_increment_sequence_counter": Native(counter, "counter"),
                       "add_receive_handler": Native(lambda a, k: None, "add_receive_handler"),
@@ -51,7 +51,9 @@ def _emit(repo, cname, mname, pos, length, value):
     fi = repo.method(cname, mname)
     try:
         interp.call(fi, spa, [pos, length, value])
-    except (PyRaise, Undecided) as e:
+    except PyRaise as e:
+        return [f"raises {e.what}"]
+    except Undecided as e:
         raise AnalysisError(f"{cname}.{mname}({pos}, {length}, {value}) on the model connection: {e}")
     return sent
 
@@ -73,7 +75,9 @@ def _reference(repo, pos, length, value):
         kw[name] = v
     try:
         h = interp.call(fi, None, [], kw)
-    except (PyRaise, Undecided) as e:
+    except PyRaise as e:
+        return f"raises {e.what}"
+    except Undecided as e:
         raise AnalysisError(f"{'.'.join(BUILDER)} by keyword: {e}")
     return _bytes_of(interp, h)
 
@@ -83,6 +87,12 @@ def device_writes(ctx, repo, rule):
     n = 0
     for pos, length, value in cases:
         ref = _reference(repo, pos, length, value)
+        bfi = repo.method(*BUILDER)
+        ctx.ob(rule, f"{'.'.join(BUILDER)}::builds::len{length}::{value:#x}", not isinstance(ref, str),
+               f"{'.'.join(BUILDER)}(pos={pos}, len={length}, data={value:#x}) {ref}: a value of the item's domain cannot be written", bfi.loc)
+        if isinstance(ref, str):
+            n += len(SITES)
+            continue
         got = {}
         for cname, mname, label in SITES:
             sent = _emit(repo, cname, mname, pos, length, value)
